@@ -216,6 +216,21 @@ func init() {
 				}
 				return hostileRun("C05", stmts, idx%2 == 0, "mutation", c.Name)
 			}},
+			{Name: "pipes", Count: countFn(3000, 300000), Run: func(ctx *core.Ctx, idx int) core.Result {
+				// generator pipelines with lambdas in iterator expressions, recycled contexts, early returns,
+				// sometimes with a hostile value planted in a stage function
+				r := core.CaseRng(ctx.Seed, "C05/pipes", idx)
+				ps, _ := c02Pipes(r)
+				pid := 0
+				cons, _, _ := c02Consumer(r, ps, false, c02Pre(r, &pid))
+				stmts := append(append([]ast.Node{}, pipeLibrary(false)...), cons...)
+				if r.Chance(1, 3) {
+					if nodes, perr, _, _, _, _ := calcrun.Parse(hostileVals[r.Intn(len(hostileVals))]); perr == nil && len(nodes) == 1 {
+						stmts = append(stmts, ast.For{Vars: []string{"hv"}, Iters: []ast.Node{ast.Call{Fn: "gmap", Args: []ast.Node{ast.IntLit{V: 900}, ast.FuncLit{Params: []string{"e"}, Body: ast.Binary{Op: "+", L: ast.Name{N: "e"}, R: calcrun.FromNode(nodes[0])}}, ast.FuncLit{Body: ps[0].Expr()}}}}, Body: ast.Name{N: "hv"}})
+					}
+				}
+				return hostileRun("C05", stmts, idx%2 == 0, "pipes", "")
+			}},
 			{Name: "binary", Count: countFn(300, 6000), Run: c05Binary},
 			{Name: "typed", Count: countFn(4000, 400000), Run: func(ctx *core.Ctx, idx int) core.Result {
 				r := core.CaseRng(ctx.Seed, "C05/typed", idx)
